@@ -163,11 +163,12 @@ def _period(recipe: dict):
     """(first_day, n_days) of the recipe relative to START_DAY."""
     defect = recipe.get("defect")
     nb = 365
-    if defect == "short":
+    dparts = set((defect or "").split("+"))
+    if "short" in dparts:
         nb = 300
-    elif defect == "long":
+    elif "long" in dparts:
         nb = 400
-    elif defect == "short9":
+    elif "short9" in dparts:
         nb = 280
     if recipe["role"] == "baseline" or recipe.get("span") == "baseline":
         return 0, nb
@@ -235,9 +236,10 @@ def build(recipe: dict):
     # temperature gaps must not depend on how `observed` is altered (C05 pairs differ in observed only)
     gt = np.random.default_rng(_seed("tgap", recipe["mid"], first, n))
     defect = recipe.get("defect") if role == "baseline" else None
+    dset = set(defect.split("+")) if defect else set()
     obs = recipe.get("obs", "present") if role == "reporting" else "raw"
     electric = p["electric"]
-    if defect == "neg":
+    if "neg" in dset:
         electric = False
 
     # a billing caller's temperature feed normally runs past the closing read; without that the
@@ -251,20 +253,22 @@ def build(recipe: dict):
         tday = pd.Series(temp_h, index=hidx).groupby(np.asarray(hidx.date)).mean().to_numpy()[:n]
         assert len(tday) == len(days), (len(tday), len(days))
         y = _daily_usage(days, tday, p, g)
-        if defect == "noise":
+        if "noise" in dset:
             y = np.full(len(y), p["base"] * 0.05)
             spikes = g.random(len(y)) < 0.03
             y[spikes] = p["base"] * 40 * g.uniform(0.5, 1.5, spikes.sum())
             y = y * np.exp(g.normal(0, 0.01, len(y)))
-        if defect == "neg":
+        if "neg" in dset:
             y[g.choice(len(y), 5, replace=False)] *= -1
-        if defect == "gaps":
+        if "gaps" in dset:
             y[g.choice(np.arange(5, len(y) - 5), int(0.13 * len(y)), replace=False)] = np.nan
-        if defect == "tmonth":
+        if "tmonth" in dset:
             mask = (hidx.month == 4)
             temp_h = temp_h.copy()
             temp_h[mask] = np.nan
-        if p["zeros"] and defect is None and len(y) > 20:
+        if recipe.get("norm"):
+            y = y / np.nanmean(y)
+        if p["zeros"] and not dset and len(y) > 20:
             y = y.copy()
             y[np.random.default_rng(_seed("zeros", recipe["mid"], first, n)).choice(
                 np.arange(3, len(y) - 3), max(1, len(y) // 120), replace=False)] = 0.0
@@ -282,24 +286,26 @@ def build(recipe: dict):
         electric = True
     ghi = _ghi(hidx, np.random.default_rng(_seed("ghi", recipe["mid"], first, n))) if recipe.get("ghi") else None
     y = _hourly_usage(hidx, temp_h, ghi, p, g)
-    if defect == "noise":
+    if "noise" in dset:
         y = np.full(len(y), p["base"] / 24.0 * 0.05)
         spikes = g.random(len(y)) < 0.01
         y[spikes] = p["base"] / 24 * 60 * g.uniform(0.5, 1.5, spikes.sum())
         y = y * np.exp(g.normal(0, 0.01, len(y)))
-    if defect == "neg":
+    if "neg" in dset:
         y = y.copy()
         y[g.choice(len(y), 50, replace=False)] *= -1
-    if defect == "gaps":
+    if "gaps" in dset:
         y = y.copy()
         m = (hidx.month == 5)
         sel = np.flatnonzero(m)
         y[g.choice(sel, int(0.2 * len(sel)), replace=False)] = np.nan
-    if defect == "tmonth":
+    if "tmonth" in dset:
         temp_h = temp_h.copy()
         sel = np.flatnonzero(hidx.month == 4)
         temp_h[g.choice(sel, int(0.3 * len(sel)), replace=False)] = np.nan
-    if p["zeros"] and defect is None and ghi is None:
+    if recipe.get("norm"):
+        y = y / np.nanmean(y)
+    if p["zeros"] and not dset and ghi is None:
         y = y.copy()
         y[np.random.default_rng(_seed("zeros", recipe["mid"], first, n)).choice(
             np.arange(30, len(y) - 30), max(1, len(y) // 500), replace=False)] = 0.0
@@ -396,6 +402,11 @@ def _hourly_ctor(recipe, hidx, y, temp_h, ghi, electric, obs):
         df = pd.DataFrame({"observed": y, "temperature": temp_h}, index=hidx)
         if ghi is not None:
             df["ghi"] = ghi
+        if recipe.get("extra"):
+            # supplemental columns a settings profile may name: a smooth series and a 0/1 flag per local day
+            doy = hidx.dayofyear.to_numpy()
+            df["extra_ts"] = 5.0 + 3.0 * np.sin(2 * np.pi * doy / 365.0) + 0.5 * np.cos(2 * np.pi * hidx.hour.to_numpy() / 24.0)
+            df["extra_cat"] = ((doy % 7) == 3).astype("int64")
         if obs == "absent":
             df = df.drop(columns=["observed"])
         if recipe["entry"] == "frame_col":
@@ -503,5 +514,6 @@ def construct(em, built):
 
 def covers_full_year(recipe: dict) -> bool:
     """Does a baseline recipe cover every calendar month and weekday? (C05 precondition)"""
-    return recipe["role"] == "baseline" and recipe.get("defect") not in ("short", "short9", "gaps", "tmonth") \
+    bad = {"short", "short9", "gaps", "tmonth"}
+    return recipe["role"] == "baseline" and not (set((recipe.get("defect") or "").split("+")) & bad) \
         or recipe.get("src") == "sample"
